@@ -52,8 +52,39 @@ func sameSeq(a, b ssa.Value) bool {
 	if a == b || sameValue(a, b) {
 		return true
 	}
+	// two loads of the same local cell that see the same (single) store denote the same value
+	ua, ok1 := a.(*ssa.UnOp)
+	ub, ok2 := b.(*ssa.UnOp)
+	if ok1 && ok2 && ua.Op == token.MUL && ub.Op == token.MUL && ua.X == ub.X {
+		if al, ok := ua.X.(*ssa.Alloc); ok && !cellWrittenInClosures(al) {
+			sa, sb := reachingStores(al, ua), reachingStores(al, ub)
+			return len(sa) == 1 && len(sb) == 1 && sa[0] == sb[0]
+		}
+	}
+	if ua, ok := unspillOnce(a); ok {
+		return sameSeq(ua, b)
+	}
+	if ub, ok := unspillOnce(b); ok {
+		return sameSeq(a, ub)
+	}
 	// loads of the same field of the same object with no store in between are not tracked; be conservative
 	return false
+}
+
+// unspillOnce: the value a load of a local cell denotes when exactly one store reaches it.
+func unspillOnce(v ssa.Value) (ssa.Value, bool) {
+	u, ok := v.(*ssa.UnOp)
+	if !ok || u.Op != token.MUL {
+		return nil, false
+	}
+	al, ok := u.X.(*ssa.Alloc)
+	if !ok || cellWrittenInClosures(al) {
+		return nil, false
+	}
+	if sts := reachingStores(al, u); len(sts) == 1 {
+		return sts[0].Val, true
+	}
+	return nil, false
 }
 
 // minLenAt: a lower bound of len(v) that holds whenever control is at `at`.
